@@ -147,7 +147,9 @@ tokFilled:
 
 	start.Head = expr
 
-	tok, err = lexer.PeekNextToken(0)
+	// we are inside an open list: wait for more input if it has run dry,
+	// otherwise a backslash arriving in the next chunk is not recognized.
+	tok, err = parser.ParserPeekNextToken(0)
 	if err != nil {
 		return SexpNull, err
 	}
